@@ -66,7 +66,12 @@ fn probe(spec: &Spec, f: &ParserFactory, rep: &mut crate::report::Report) -> Res
         } else {
             let mut k = m.clone();
             let closes = allows(&mut k, spec.close[0]);
-            let Some(closes) = closes else { return Err(("mask_error".into(), json!({"count": c, "so_far": bytes_dbg(&so_far)}))) };
+            let Some(closes) = closes else {
+                if resource_stop_on_replay(f, &spec.grammar, &so_far.iter().map(|&x| x as u32).collect::<Vec<_>>()) {
+                    return Err(("resource_stop".into(), json!({})));
+                }
+                return Err(("mask_error".into(), json!({"count": c, "so_far": bytes_dbg(&so_far)})));
+            };
             if closes != in_range {
                 return Err(("count_acceptance_wrong".into(), json!({"count": c, "closer_allowed": closes, "expected": in_range, "so_far": bytes_dbg(&so_far)})));
             }
@@ -87,6 +92,9 @@ fn probe(spec: &Spec, f: &ParserFactory, rep: &mut crate::report::Report) -> Res
         let Some(cont) = cont else {
             if !may_continue {
                 break;
+            }
+            if resource_stop_on_replay(f, &spec.grammar, &so_far.iter().map(|&x| x as u32).collect::<Vec<_>>()) {
+                return Err(("resource_stop".into(), json!({})));
             }
             return Err(("mask_error".into(), json!({"count": c, "so_far": bytes_dbg(&so_far)})));
         };
@@ -258,6 +266,7 @@ pub fn run(ctx: &mut Ctx) {
                         Ok(()) => {
                             ctx.rep.nontrivial(fnv(spec.name.as_bytes()) ^ ri as u64);
                         }
+                        Err((kind, _)) if kind == "resource_stop" => ctx.rep.inconclusive("resource_stop"),
                         Err((kind, detail)) => {
                             let d = json!({"spec": spec.name, "grammar": spec.grammar.text, "oracle": detail});
                             let rp = ctx.replay(k);
@@ -295,6 +304,7 @@ pub fn run(ctx: &mut Ctx) {
                     // Lark syntax deliberately refuses x{0} / x{0,0} with an error
                     ctx.rep.inc("lark_zero_range_refused");
                 }
+                Err((kind, _)) if kind == "resource_stop" => ctx.rep.inconclusive("resource_stop"),
                 Err((kind, detail)) => {
                     let d = json!({"spec": spec.name, "m": m, "n": n, "grammar": spec.grammar.text, "oracle": detail});
                     let rp = ctx.replay(idx);
